@@ -2057,7 +2057,7 @@ def add_opcode(
         del nopcodes_inverse[nopname]
 
     for alias in aliases:
-        opcode_aliases[alias] = name
+        opcode_aliases[alias.upper()] = name
 
 def add_alias(alias: str, op_name: str) -> None:
     """Adds an alias for an OP. Raises TypeError for non-str args and
